@@ -1,4 +1,4 @@
-// finding=F117 property=C16 status=known kind=exec-msl
+// finding=F117 property=C16 status=fixed kind=exec-msl
 // MSL / HLSL: a user variable named naga_neg collides with the generated helper function of that name (naga_div, naga_mod are protected; naga_neg / naga_abs are not)
 // expect 0,0[0] = 4294967295
 @group(0) @binding(0) var<storage,read_write> o: array<u32,64>;
